@@ -223,8 +223,7 @@ func c12World(c *runner.Ctx) (*gen.World, error) {
 func c12Run(c *runner.Ctx) {
 	r := c.R
 	w, err := c12World(c)
-	if err != nil {
-		c.Note(fmt.Sprintf("case %d: world construction failed (C01/C02/C04's business): %s", c.Idx, firstLine(err.Error())))
+	if w = usable(c, w, err); w == nil {
 		return
 	}
 	defer w.Close()
@@ -338,8 +337,7 @@ func c12Cancelled(c *runner.Ctx, j *c12Job, when, sig string, got []byte, err er
 func c12AsyncRun(c *runner.Ctx) {
 	r := c.R
 	w, err := c12World(c)
-	if err != nil {
-		c.Note(fmt.Sprintf("case %d: world construction failed: %s", c.Idx, firstLine(err.Error())))
+	if w = usable(c, w, err); w == nil {
 		return
 	}
 	defer w.Close()
